@@ -507,6 +507,36 @@ func (h *Hist) step() {
 			}
 		}
 		h.W("write", ".goitignore", []byte(strings.Join(ls, "\n")+"\n"))
+	case "ignore-probe":
+		// an ignored *file* with siblings that sort before and after it, in the root or in a directory,
+		// some of them tracked, followed by `status` (and `add <dir>`): what an ignored entry hides must
+		// not depend on what sorts after it
+		ext := r.pick([]string{"log", "tmp", "o", "c"})
+		dir := ""
+		if r.chance(2, 3) {
+			dir = h.comp() + "/"
+		}
+		lines := []string{"*." + ext}
+		if r.chance(1, 3) {
+			lines = append(lines, h.comp()+"/")
+		}
+		h.W("write", ".goitignore", []byte(strings.Join(lines, "\n")+"\n"))
+		mid := r.pick([]string{"k", "m", "d", "b"})
+		h.W("write", dir+mid+"."+ext, h.content())
+		for _, sib := range []string{"a", mid + "~z", "zz", "zsub/q", mid} {
+			if r.chance(2, 3) {
+				h.W("write", dir+sib, h.content())
+			}
+		}
+		h.X(tz, "status")
+		if r.chance(1, 2) {
+			if dir == "" {
+				h.X(tz, "add", ".")
+			} else {
+				h.X(tz, "add", strings.TrimSuffix(dir, "/"))
+			}
+			h.X(tz, "status")
+		}
 	case "add":
 		var args []string
 		n := 1 + r.intn(3)
